@@ -21,6 +21,7 @@ type editOp struct {
 	Op string `json:"op"` // reverse | complement | rotate | delete | erase | slice | insert | embed | concat | clear
 	I  int    `json:"i,omitempty"`
 	N  int    `json:"n,omitempty"`
+	G  int    `json:"g,omitempty"` // residues of the guest of insert / embed (0: nine)
 }
 
 type recSource struct {
@@ -170,6 +171,15 @@ type c01Scenario struct {
 	// a separate writer process: what the reader learnt about qualifier names
 	// is still there when the writer runs.
 	SameProcess bool `json:"same_process,omitempty"`
+	// PostOps: one more process reads the written stream with ONE scanner and
+	// applies these edit operations to every record - as each record arrives
+	// (like `gts rotate` on a multi-record stream) or, with PostCollect, after
+	// all of them were collected (like `gts join` or the guests of `gts insert`)
+	// - and writes the results. Each must equal what the same operations give
+	// for the record's own bytes read alone in a fresh process: records of a
+	// stream are independent values, also under edits that grow them.
+	PostOps     []editOp `json:"post_ops,omitempty"`
+	PostCollect bool     `json:"post_collect,omitempty"`
 }
 
 var gbCorpus = []string{"NC_001422.gb", "NC_001422_part.gb", "pBAT5.txt", "NC_000913.3.min.gb"}
@@ -190,7 +200,11 @@ func applyOp(seq gts.Sequence, op editOp) (out gts.Sequence, pnc string) {
 		}
 		return i % (n + 1)
 	}
-	guest := gts.New(nil, gts.FeatureSlice{gts.NewFeature("misc_feature", gts.Range(1, 5), gts.Props{[]string{"note", "guest"}})}, []byte("ttgacagct"))
+	gres := []byte("ttgacagct")
+	for len(gres) < op.G {
+		gres = append(gres, "ttgacagct"...)
+	}
+	guest := gts.New(nil, gts.FeatureSlice{gts.NewFeature("misc_feature", gts.Range(1, 5), gts.Props{[]string{"note", "guest"}})}, gres)
 	switch op.Op {
 	case "reverse":
 		return gts.Reverse(seq), ""
@@ -275,6 +289,21 @@ func genC01(r *core.RNG, tier string) *c01Scenario {
 		sc.Align = r.Range(1, 3)
 	}
 	sc.SameProcess = r.Chance(1, 3)
+	if n >= 2 && r.Chance(1, 3) {
+		for i := r.Range(1, 2); i > 0; i-- {
+			op := editOp{Op: []string{"rotate", "insert", "embed", "concat", "reverse", "complement", "delete", "slice"}[r.Pick([]int{4, 4, 3, 2, 1, 1, 1, 1})]}
+			op.I = r.Intn(400)
+			op.N = r.Range(0, 120)
+			switch op.Op {
+			case "rotate":
+				op.N = []int{r.Range(-50, 50), r.Range(50, 700), -r.Range(50, 700), 3000}[r.Intn(4)]
+			case "insert", "embed":
+				op.G = []int{0, r.Range(10, 60), r.Range(60, 900), 6000}[r.Intn(4)]
+			}
+			sc.PostOps = append(sc.PostOps, op)
+		}
+		sc.PostCollect = r.Chance(1, 2)
+	}
 	return sc
 }
 
@@ -704,6 +733,103 @@ func (x *c01Run) exec() {
 	if len(sc.Chunks2) > 0 || len(sc.AltChunks) > 0 {
 		res.Probes["stream_read_under_two_chunk_schedules"]++
 	}
+	x.editIndependence(s1, outs, idx, chunks2)
+}
+
+// editIndependence is L6: the records one scanner returns from a stream are
+// independent values - editing one (also in ways that grow it) changes neither
+// the others nor what the scanner returns next.
+func (x *c01Run) editIndependence(s1 []byte, outs [][]byte, idx []int, chunks []int) {
+	sc, res := x.sc, x.res
+	if len(sc.PostOps) == 0 || len(idx) < 2 {
+		return
+	}
+	edit := func(v gts.Sequence) ([]byte, string) {
+		for _, op := range sc.PostOps {
+			w, pnc := applyOp(v, op)
+			if pnc != "" {
+				return nil, "panic:" + panicSite(pnc)
+			}
+			v = w
+		}
+		out, err, pnc := writeSeq(v, seqio.GenBankFile)
+		if pnc != "" {
+			return nil, "panic:" + panicSite(pnc)
+		}
+		if err != nil {
+			return nil, "error:" + errSig(err)
+		}
+		return out, ""
+	}
+	refs := make([][]byte, len(idx))
+	refFail := make([]string, len(idx))
+	for k, i := range idx {
+		processBoundary()
+		ra := scanAll(outs[i], simpipe.Spec{CutAt: -1}, 0)
+		res.SimOps += ra.Reads
+		if ra.Panic != "" || ra.Err != nil || len(ra.Seqs) != 1 {
+			refFail[k] = "unreadable"
+			continue
+		}
+		refs[k], refFail[k] = edit(ra.Seqs[0])
+	}
+	processBoundary()
+	got := make([][]byte, 0, len(idx))
+	gotFail := make([]string, 0, len(idx))
+	var scanErr error
+	pnc := func() (pnc string) {
+		defer func() {
+			if r := recover(); r != nil {
+				pnc = fmt.Sprintf("%v\n%s", r, debug.Stack())
+			}
+		}()
+		rd := simpipe.New(s1, simpipe.Spec{Chunks: chunks, CutAt: -1})
+		scn := seqio.NewAutoScanner(rd)
+		var held []gts.Sequence
+		for scn.Scan() {
+			if sc.PostCollect {
+				held = append(held, scn.Value())
+				continue
+			}
+			o, f := edit(scn.Value())
+			got, gotFail = append(got, o), append(gotFail, f)
+		}
+		scanErr = scn.Err()
+		for _, v := range held {
+			o, f := edit(v)
+			got, gotFail = append(got, o), append(gotFail, f)
+		}
+		res.SimOps += rd.Reads
+		return ""
+	}()
+	res.Evaluations++
+	res.Probes["stream_records_edited_by_the_reading_process"]++
+	mode := "streaming"
+	if sc.PostCollect {
+		mode = "collected"
+	}
+	x.key("post-ops|" + mode + "|" + sc.PostOps[0].Op)
+	sig := mode + ":" + sc.PostOps[len(sc.PostOps)-1].Op
+	if pnc != "" {
+		x.violate("edit-independence", sig, "the process that reads the stream and edits its records panicked outside an edit operation: "+firstLine(pnc))
+		return
+	}
+	if scanErr != nil || len(got) != len(idx) {
+		x.violate("edit-independence", sig, fmt.Sprintf("a stream of %d records that reads back completely when its records are left alone gave %d records and err=%v when each record was edited (%s) by the reading process", len(idx), len(got), scanErr, mode))
+		return
+	}
+	for k := range idx {
+		if refFail[k] != "" {
+			continue // the operations do not apply to this record even when it is alone: another property's business
+		}
+		if gotFail[k] != "" {
+			x.violate("edit-independence", sig, fmt.Sprintf("record %d: the edit operations work on the record read alone but fail (%s) on the same record read from the stream", idx[k], gotFail[k]))
+			continue
+		}
+		if !bytes.Equal(got[k], refs[k]) {
+			x.violate("edit-independence", sig, fmt.Sprintf("record %d: edited after being read from a %d-record stream (%s) it is written differently (first difference in %s) than when its own bytes are read alone in a fresh process and edited the same way", idx[k], len(idx), mode, firstDiffField(refs[k], got[k])))
+		}
+	}
 }
 
 func srcKind(s recSource) string {
@@ -742,14 +868,15 @@ func (C01) Meta() core.Meta {
 	return core.Meta{
 		Property:   "C01",
 		Level:      "exploration",
-		NonVacuous: []string{"stream_read_under_two_chunk_schedules", "unknown_qualifier_learned_in_multi_record_process", "foreign_layout_records_read", "reader_and_writer_in_one_process"},
+		NonVacuous: []string{"stream_records_edited_by_the_reading_process", "stream_read_under_two_chunk_schedules", "unknown_qualifier_learned_in_multi_record_process", "foreign_layout_records_read", "reader_and_writer_in_one_process"},
 		Rule: "Each simulated run draws a stream of 1-4 records from its seed: API-built GenBank records from a generator over the writable domain (all header fields " +
 			"present/absent, valid calendar dates, 0-4 features with every location kind, quoted/literal/toggle/multi-line/repeated/unknown-name qualifiers, lengths sweeping " +
 			"mod 10 and mod 60, CONTIG with and without ORIGIN), corpus records (which enter through gts's own reader in a process of their own), and either of those pushed " +
 			"through 0-3 seeded gts edit operations. Simulated process P1 writes them with the real writer; P2 (fresh process-global qualifier registries) reads the stream from " +
 			"a simulated pipe under a seeded chunk schedule and writes again; P3 does the same to P2's output; each record is also read alone in a fresh process, and the stream " +
 			"is read again under a second chunk schedule. Oracles: closure (N records, no error), byte fixed point over three generations, field-by-field fidelity against the " +
-			"value written, framing (in-stream value == stand-alone value), chunk invariance. A case is one oracle evaluation; it is non-trivial when its state key is new.",
+			"value written, framing (in-stream value == stand-alone value), chunk invariance, edit independence (a process that reads the stream with one scanner and edits every " +
+			"record, as it arrives or after collecting all, writes what the same edits give for each record read alone). A case is one oracle evaluation; it is non-trivial when its state key is new.",
 		StateRule: "distinct (record source, last edit op, feature-count class, length class, contig) shapes and (records in stream, chunk class, registry state after the read) tuples",
 		Assumptions: []string{
 			"the generator stays inside the writable domain described in DESIGN.md §6 and Appendix C; generator corrections are logged there",
@@ -826,6 +953,18 @@ func (C01) Candidates(raw json.RawMessage) []json.RawMessage {
 		func(c *c01Scenario) { c.FailFirst = nil },
 		func(c *c01Scenario) { c.Align = 0 },
 		func(c *c01Scenario) { c.SameProcess = false },
+		func(c *c01Scenario) { c.PostOps = nil },
+		func(c *c01Scenario) {
+			if len(c.PostOps) > 1 {
+				c.PostOps = c.PostOps[1:]
+			}
+		},
+		func(c *c01Scenario) {
+			if len(c.PostOps) > 1 {
+				c.PostOps = c.PostOps[:1]
+			}
+		},
+		func(c *c01Scenario) { c.PostCollect = false },
 		func(c *c01Scenario) { c.Chunks2 = nil }, func(c *c01Scenario) { c.Chunks3 = nil }, func(c *c01Scenario) { c.AltChunks = nil },
 	} {
 		c := cl()
